@@ -56,6 +56,16 @@ def explore(ctx, depth):
             ctx.seen({'text': case.text, 'headers': t, 'clause': 'spine_types'})
             if got != exp:
                 ctx.fail({'text': case.text, 'headers': t, 'clause': 'spine_types'}, 'spine-type query is not the header line of the projection', impl=got, expected=exp)
+            elif 'ok' in got and got['ok']:
+                # the answer belongs to the caller: after editing it (and asking with the types in another order) the query still answers for the document
+                def again():
+                    first = kp.spine_types(case.doc, headers=t)
+                    first.reverse(); first.append('**edited'); first.pop(0)
+                    return kp.spine_types(case.doc, headers=None if t is None else list(reversed(t)))
+                g2 = call(again)
+                if g2 != exp:
+                    ctx.fail({'text': case.text, 'headers': t, 'clause': 'spine_types after the caller edited an earlier answer'},
+                             'a repeated spine-type query is affected by edits to the list an earlier query returned', impl=g2, expected=exp)
 
 
 def replay(ctx, payload):
